@@ -2,7 +2,7 @@
    semantics of GoLang.v, exactly what the hand-written model says.  An edit of one of these functions in engine/*.go breaks
    the corresponding proof here (and the property files that cite it). *)
 From Coq Require Import ZArith List String Bool Lia ZifyBool.
-Require Import Base Generated Position Uci Search SearchImp GoLang GeneratedFns.
+Require Import Base Generated Position Attack Uci Search SearchImp GoLang GeneratedFns.
 Import ListNotations.
 Open Scope Z_scope.
 
@@ -125,6 +125,33 @@ Proof.
   rewrite int64_id; [reflexivity|]. unfold in_int64, LostScore. lia.
 Qed.
 
+(* the engine's own helpers abs, min and max, which `call` above gives a built-in meaning when another translated function
+   uses them: their source text means exactly that built-in *)
+Theorem abs_translated : forall a, run_fn fn_abs [a] [] = do v <- call "abs" [a]; Ok (Returned v).
+Proof. intros a. unfold run_fn, fn_abs. cbn -[int64 Z.ltb]. destruct (a <? 0); reflexivity. Qed.
+Theorem min_translated : forall a b, run_fn fn_min [a; b] [] = do v <- call "min" [a; b]; Ok (Returned v).
+Proof.
+  intros a b. unfold run_fn, fn_min. cbn -[int64 Z.ltb Z.min].
+  destruct (a <? b) eqn:E; cbn -[Z.min]; do 2 f_equal; lia.
+Qed.
+Theorem max_translated : forall a b, run_fn fn_max [a; b] [] = do v <- call "max" [a; b]; Ok (Returned v).
+Proof.
+  intros a b. unfold run_fn, fn_max. cbn -[int64 Z.gtb Z.max].
+  destruct (a >? b) eqn:E; cbn -[Z.max]; do 2 f_equal; lia.
+Qed.
+
+(* moveIndex (index of the attack and direction tables): for squares that fit a byte every intermediate value lies inside
+   int16, so the untyped int64 arithmetic of the fragment and Go's int16 arithmetic agree *)
+Theorem moveIndex_translated : forall from to, 0 <= from <= 255 -> 0 <= to <= 255 ->
+  run_fn fn_moveIndex [from; to] [] = Ok (Returned (Attack.move_index from to)).
+Proof.
+  intros from to Hf Ht. unfold run_fn, fn_moveIndex, Attack.move_index. cbn -[int64 Z.modulo lastValidSquare Z.add Z.sub].
+  replace ((to + 32768) mod 65536 - 32768) with to by (rewrite Z.mod_small; lia).
+  replace ((from + 32768) mod 65536 - 32768) with from by (rewrite Z.mod_small; lia).
+  assert (L : lastValidSquare = 119) by reflexivity. rewrite L.
+  rewrite (int64_id (119 + to)) by (unfold in_int64; lia). rewrite int64_id by (unfold in_int64; lia). reflexivity.
+Qed.
+
 Print Assumptions terminalNodeScore_translated.
 Print Assumptions pliesToMate_translated.
 Print Assumptions killerSlot_translated.
@@ -132,3 +159,7 @@ Print Assumptions nextMoveWins_translated.
 Print Assumptions closeToMate_translated.
 Print Assumptions fullMovesToMate_translated.
 Print Assumptions calcEndtime_translated.
+Print Assumptions abs_translated.
+Print Assumptions min_translated.
+Print Assumptions max_translated.
+Print Assumptions moveIndex_translated.
